@@ -23,7 +23,7 @@ import (
 type chainShape struct {
 	N     int    `json:"n"`     // chain length including the main handler
 	Split [3]int `json:"split"` // global, group, route middleware counts (sum = n-1)
-	Via   string `json:"via"`   // how route middleware is attached: "variadic" | "use" | "mixed"
+	Via   string `json:"via"`   // how route middleware is attached: "variadic" | "use" | "mixed" | "resource:<Action>:<METHOD>" (the Uses() table of a resource controller)
 	Beh   string `json:"beh"`   // one behaviour code (letter) per handler
 	// Hooks: router-level hooks installed before serving: 'E' = OnError (writes nothing), 'P' = OnPanic (never fires:
 	// no handler panics); neither may change what the chain does. 'W' = an extra first global middleware replaces c.Resp
@@ -34,6 +34,12 @@ type chainShape struct {
 	// chains run alone, every other chain holds a read lock meanwhile).
 	// 'S' = the group's middleware is added with one Use call each inside the group (spare slice capacity) and a SIBLING
 	// route with a route-level middleware of its own is registered in the same group after the measured route.
+	// 'V' = every list of middleware is handed over as a caller-owned spread slice WITH SPARE CAPACITY that the caller
+	// uses again afterwards: the first global middleware (the others follow by single Use calls; the same slice then
+	// starts a second router that adds one more), the route's variadic middleware (the same slice is then given to a
+	// sibling route, which adds one more with Route.Use).
+	// 'K' = the router caches dynamic matches; the measured chain belongs to a route registered for HEAD only (/x/{id});
+	// a GET route with two other middleware covers the same path; the history is GET, HEAD, then the measured HEAD.
 	// 'C' = the router caches dynamic matches, the route is dynamic (/x/{id}) and the measured request is the SECOND
 	// identical one (answered from the route cache).
 	Hooks string `json:"hooks,omitempty"`
@@ -141,6 +147,24 @@ func (w *statusW) Write(b []byte) (int, error) {
 	return w.ResponseWriter.Write(b)
 }
 
+// ChainRes is a resource controller with all seven actions; handlers and per-action middleware are set per instance
+type ChainRes struct {
+	h    map[string]rux.HandlerFunc
+	uses map[string][]rux.HandlerFunc
+}
+
+func (c *ChainRes) Uses() map[string][]rux.HandlerFunc { return c.uses }
+func (c *ChainRes) Index(x *rux.Context)               { c.h["Index"](x) }
+func (c *ChainRes) Create(x *rux.Context)              { c.h["Create"](x) }
+func (c *ChainRes) Store(x *rux.Context)               { c.h["Store"](x) }
+func (c *ChainRes) Show(x *rux.Context)                { c.h["Show"](x) }
+func (c *ChainRes) Edit(x *rux.Context)                { c.h["Edit"](x) }
+func (c *ChainRes) Update(x *rux.Context)              { c.h["Update"](x) }
+func (c *ChainRes) Delete(x *rux.Context)              { c.h["Delete"](x) }
+
+// chainResVias: every (action, method) of the REST table
+var chainResVias = []string{"resource:Index:GET", "resource:Create:GET", "resource:Store:POST", "resource:Show:GET", "resource:Edit:GET", "resource:Update:PUT", "resource:Update:PATCH", "resource:Delete:DELETE"}
+
 // runChain builds the router for the shape and serves one request.
 func runChain(sh chainShape, table map[byte]refmodel.Behaviour) (obs chainObs, bs []refmodel.Behaviour, regPanic any) {
 	if strings.Contains(sh.Hooks, "D") {
@@ -169,9 +193,19 @@ func runChain(sh chainShape, table map[byte]refmodel.Behaviour) (obs chainObs, b
 	g, p, rt := sh.Split[0], sh.Split[1], sh.Split[2]
 	r := rux.New()
 	routePath, reqPath := "/x", "/x"
-	if strings.Contains(sh.Hooks, "C") {
+	if strings.Contains(sh.Hooks, "C") || strings.Contains(sh.Hooks, "K") {
 		r = rux.New(rux.CachingWithNum(4))
 		routePath, reqPath = "/x/{id}", "/x/7"
+	}
+	method := "GET"
+	if strings.Contains(sh.Hooks, "K") {
+		method = "HEAD"
+	}
+	if strings.HasPrefix(sh.Via, "resource:") {
+		parts := strings.Split(sh.Via, ":")
+		method = parts[2]
+		routePath = map[string]string{"Index": "/chainres", "Create": "/chainres/create", "Store": "/chainres", "Show": "/chainres/7", "Edit": "/chainres/7/edit", "Update": "/chainres/7", "Delete": "/chainres/7"}[parts[1]]
+		reqPath = routePath
 	}
 	if strings.Contains(sh.Hooks, "E") {
 		r.OnError = func(c *rux.Context) { _ = c.FirstError() }
@@ -232,7 +266,24 @@ func runChain(sh chainShape, table map[byte]refmodel.Behaviour) (obs chainObs, b
 	regPanic = try(func() {
 		// global middleware: added one by one (spare capacity in the slice) when there are several - in debug-mode
 		// chains with one call for all of them
-		if strings.Contains(sh.Hooks, "D") && g > 1 {
+		noop := func(*rux.Context) {}
+		ownedCopy := func(l []rux.HandlerFunc) []rux.HandlerFunc {
+			c := make([]rux.HandlerFunc, len(l), len(l)+4)
+			copy(c, l)
+			return c
+		}
+		if strings.Contains(sh.Hooks, "V") && g > 0 {
+			first := ownedCopy(hs[:1])
+			r.Use(first...)
+			for i := 1; i < g; i++ {
+				r.Use(hs[i])
+			}
+			// the caller goes on using its slice: a second router starts from it and adds a handler of its own
+			r2 := rux.New()
+			r2.Use(first...)
+			r2.Use(noop)
+			r2.Use(noop)
+		} else if strings.Contains(sh.Hooks, "D") && g > 1 {
 			r.Use(hs[:g]...)
 		} else {
 			for i := 0; i < g; i++ {
@@ -241,6 +292,39 @@ func runChain(sh chainShape, table map[byte]refmodel.Behaviour) (obs chainObs, b
 		}
 		reg := func() {
 			rm := hs[g+p : g+p+rt]
+			if strings.HasPrefix(sh.Via, "resource:") {
+				// the measured chain is that of one action of a resource controller: its route middleware comes from Uses()
+				parts := strings.Split(sh.Via, ":")
+				noopH := func(*rux.Context) {}
+				ctl := &ChainRes{h: map[string]rux.HandlerFunc{}, uses: map[string][]rux.HandlerFunc{}}
+				for _, a := range []string{"Index", "Create", "Store", "Show", "Edit", "Update", "Delete"} {
+					ctl.h[a] = noopH
+					ctl.uses[a] = []rux.HandlerFunc{noopH}
+				}
+				ctl.h[parts[1]] = hs[n-1]
+				ctl.uses[parts[1]] = rm
+				r.Resource("/", ctl)
+				return
+			}
+			if strings.Contains(sh.Hooks, "V") {
+				h := len(rm) / 2
+				if sh.Via == "variadic" {
+					h = len(rm)
+				} else if sh.Via == "use" {
+					h = 0
+				}
+				list := ownedCopy(rm[:h])
+				r.GET(routePath, hs[n-1], list...).Use(rm[h:]...)
+				r.GET("/siblingV", noop, list...).Use(noop, noop)
+				r.POST("/siblingV", noop, list...).Use(noop)
+				return
+			}
+			if strings.Contains(sh.Hooks, "K") {
+				other := func(c *rux.Context) { log = append(log, refmodel.Event{H: 200, Kind: "foreign-get-route"}) }
+				r.GET(routePath, other, other, other)
+				r.Add(routePath, hs[n-1], "HEAD").Use(rm...)
+				return
+			}
 			switch sh.Via {
 			case "use":
 				r.GET(routePath, hs[n-1]).Use(rm...)
@@ -284,12 +368,17 @@ func runChain(sh chainShape, table map[byte]refmodel.Behaviour) (obs chainObs, b
 		_ = try(func() { r.ServeHTTP(httptest.NewRecorder(), httptest.NewRequest("GET", reqPath, nil)) })
 		log = log[:0]
 	}
+	if strings.Contains(sh.Hooks, "K") {
+		_ = try(func() { r.ServeHTTP(httptest.NewRecorder(), httptest.NewRequest("GET", reqPath, nil)) })
+		_ = try(func() { r.ServeHTTP(httptest.NewRecorder(), httptest.NewRequest("HEAD", reqPath, nil)) })
+		log = log[:0]
+	}
 	if strings.Contains(sh.Hooks, "X") {
 		_ = try(func() { r.ServeHTTP(httptest.NewRecorder(), httptest.NewRequest("GET", "/abort-then-panic", nil)) })
 		log = log[:0]
 	}
 	w := httptest.NewRecorder()
-	obs.pv = try(func() { r.ServeHTTP(w, httptest.NewRequest("GET", reqPath, nil)) })
+	obs.pv = try(func() { r.ServeHTTP(w, httptest.NewRequest(method, reqPath, nil)) })
 	obs.events = log
 	obs.status = w.Code
 	obs.body = w.Body.String()
